@@ -95,6 +95,14 @@ func RunAction(kind string, r interface{}, act string) {
 		c.Error(errCustom)
 	case "errplain":
 		c.Error(errPlain)
+	case "errwrap":
+		// an ordinary error that merely wraps a library error is not "of the library's error type"
+		c.Error(fmt.Errorf("lookup of user failed: %w", res.ErrNotFound))
+	case "errStd":
+		// a library error value with a predefined code but its own message and data: returned verbatim
+		c.Error(&res.Error{Code: res.CodeNotFound, Message: "User 42 not found", Data: map[string]int{"id": 42}})
+	case "panicWrap":
+		panic(fmt.Errorf("lookup of user failed: %w", res.ErrNotFound))
 	case "notfound":
 		c.NotFound()
 	case "timeout":
